@@ -193,7 +193,7 @@ def _run(ctx: Ctx, pool, nproc: int) -> None:
         case = cases[ci][0]
         r = results[ji]
         ctx.case([case["tr"], hooks, case["script"]])
-        obs.append({"case": case, "obs": {"units": r["units"], "hung": r["hung"]}})
+        obs.append({"case": case, "obs": {"units": r["units"], "hung": r["hung"], "nhooks": len(hooks)}})
     for ji in range(0, len(jobs), max(1, len(jobs) // 5)):
         ci, hooks = jobs[ji]
         ctx.sample({"case": cases[ci][0], "hooks": hooks, "expected_units": cases[ci][1],
